@@ -353,6 +353,32 @@ func TestReplay(t *testing.T) {
 			} else if g := canon(projValue(d.Value)); g != want {
 				bad("c03:decoded-tree-differs", map[string]any{"lib": g, "spec": want})
 			}
+			// (b') C18 for untyped values through the text encodings: what the library writes for the decoded value is read back by
+			// the library and written again identically
+			if d.Outcome == "value" && len(spec) <= 4096 {
+				for _, h := range []struct {
+					name string
+					m    func(any) []byte
+					u    func([]byte, any) error
+				}{{"xml", ttlv.MarshalXML, ttlv.UnmarshalXML}, {"json", ttlv.MarshalJSON, ttlv.UnmarshalJSON}} {
+					func() {
+						defer func() {
+							if r := recover(); r != nil {
+								bad("c18:generic-"+h.name+"-panic", vh.PanicSig(r))
+							}
+						}()
+						t1 := h.m(v)
+						var v2 ttlv.Value
+						if err := h.u(t1, &v2); err != nil {
+							bad("c18:generic-"+h.name+"-reencoding-not-accepted", map[string]any{"doc": string(t1), "err": err.Error()})
+							return
+						}
+						if t2 := h.m(v2); !bytes.Equal(t1, t2) {
+							bad("c18:generic-"+h.name+"-second-reencoding-differs", map[string]any{"first": string(t1), "second": string(t2)})
+						}
+					}()
+				}
+			}
 			// (c) refwire against the specification: this is what licenses it as the independent parser
 			it, err := refwire.Parse(spec, true)
 			if err != nil {
